@@ -697,6 +697,9 @@ func c19exec(op string) Result {
 	r.Out = strings.Join(sb, " ")
 
 	// oracle 1: transparency
+	for _, s := range stops {
+		killed = killed || s.killed // also a kill beyond the blind point
+	}
 	if !killed && !dockilled {
 		if got.res != ref.ref.res || got.t != ref.ref.t {
 			if blind >= 0 {
